@@ -165,6 +165,57 @@ impl ResponseReader {
             res.sp_charset() == charset_spec(headers, request.sp_settings().default_charset), // id: text_charset_from_header_or_request_default [C18]
 //@@ end
 
+//@@ fn src/parsing/response_reader.rs impl~ResponseReader write_to props=C01,C02
+//@@ sigrw R10
+mut writer: W
+//@@ =>
+writer: &mut W
+//@@ rw R1
+io::copy(&mut self.inner, &mut writer)
+//@@ =>
+vp_io_copy_body(&mut self.inner, writer)
+//@@ contract
+        requires self.sp_inner().inv(),
+        ensures
+            self.sp_inner() matches CompressedReader::Plain(b0) ==> ({
+                &&& (res matches Ok(n) ==> b0.owed().1 && n == b0.owed().0.len() && (*final(writer)).sent() == (*old(writer)).sent() + b0.owed().0) // id: write_to_copies_exactly_the_framed_payload [C01]
+                &&& (!b0.owed().1 ==> res is Err) // id: incomplete_body_makes_write_to_fail [C02]
+            }),
+//@@ end
+
+//@@ fn src/parsing/response_reader.rs impl~ResponseReader bytes props=C01,C02
+//@@ splice before
+let mut buf = Vec::new();
+//@@ with
+        broadcast use axiom_vec_sent;
+//@@ contract
+        requires self.sp_inner().inv(),
+        ensures
+            self.sp_inner() matches CompressedReader::Plain(b0) ==> ({
+                &&& (res matches Ok(v) ==> b0.owed().1 && v@ =~= b0.owed().0) // id: bytes_returns_exactly_the_framed_payload [C01]
+                &&& (!b0.owed().1 ==> res is Err) // id: incomplete_body_makes_bytes_fail [C02]
+            }),
+//@@ end
+
+//@@ fn src/parsing/response_reader.rs impl~ResponseReader text_utf8 props=C01,C02,C18
+//@@ method R1
+read_to_end
+//@@ =>
+vp_read_to_end_body(&mut @@RECV, @@ARGS)
+//@@ rw R1
+String::from_utf8(buf).unwrap_or_else(|err| String::from_utf8_lossy(err.as_bytes()).into_owned())
+//@@ =>
+vp_utf8_or_lossy(buf)
+//@@ contract
+        requires self.sp_inner().inv(),
+        ensures
+            self.sp_inner() matches CompressedReader::Plain(b0) ==> ({
+                &&& (res matches Ok(s) ==> b0.owed().1 && s@ == utf8_lossy_string(b0.owed().0)) // id: text_utf8_decodes_exactly_the_framed_payload_lossily [C01,C18]
+                &&& (!b0.owed().1 ==> res is Err) // id: incomplete_body_makes_text_utf8_fail [C02]
+                &&& (b0.owed().1 && b0.ff() ==> true)
+            }),
+//@@ end
+
 //@@ fn src/parsing/response_reader.rs impl~Read~for~ResponseReader read props=C01,C02
 //@@ contract
         requires old(self).sp_inner().inv(),
